@@ -10,7 +10,7 @@ PID = "C03"
 LEVEL = "exploration"
 RULE = ("generated fronts (with/without tied values, zero-range objectives, objectives rescaled by 2**-1000..2**900) through crowding_distance; ranked populations "
         "with duplicated designs, hash-colliding vectors and k from 1 to 2*size through nondominated_truncate; size-2 and "
-        "larger populations through TournamentSelector.select with the drawn pair tapped; the same monitors inside NSGA-II/"
+        "larger populations through TournamentSelector.select with the drawn pair tapped, again with the same selector after the same design objects were re-evaluated in place (labels stale, then ranked again); the same monitors inside NSGA-II/"
         "SMPSO/PSOGA/OMOPSO runs. non-trivial: front of >=3 members / truncation that actually cuts or de-duplicates / "
         "tournament whose two candidates differ in front or dominance; distinct by the cost (and vector) lists")
 ASSUMPTIONS = ["vectors closer than 1e-10 but not identical are not generated (equality and hashing legitimately disagree there)",
@@ -412,6 +412,7 @@ def requirements(ctx):
     ctx.require("select_pair_verdicts", 200)
     # (select_pairs_tapped is informational: an implementation that does not draw its pair with random.sample is judged on the
     #  size-2 populations, where the two candidates are known)
+    ctx.require("select_calls_after_in_place_re_evaluation", 200)
     ctx.require("insitu_truncate_calls", 5)
     ctx.require("insitu_crowding_calls", 20)
     ctx.require("insitu_select_calls", 50)
